@@ -3123,8 +3123,9 @@ class VM:
 
     def _throw(self, exc: JSValue) -> None:
         """Throw an exception."""
-        # Try to add source location to error object
-        if isinstance(exc, JSObject):
+        # Try to add source location to error object (an object made by an Error
+        # constructor: any other thrown object arrives as it is)
+        if isinstance(exc, JSObject) and exc.has_own("lineNumber"):
             line, column = self._get_source_location()
             if line is not None:
                 exc.set("lineNumber", line)
